@@ -28,6 +28,9 @@ var (
 
 	// ErrCapacity is returned when capacity is error.
 	ErrCapacity = errors.New("capacity error")
+
+	// ErrRWMode is returned when the RWMode is neither FileIO nor MMap.
+	ErrRWMode = errors.New("unknown RWMode")
 )
 
 const (
@@ -67,6 +70,10 @@ func NewDataFile(path string, capacity int64, rwMode RWMode) (df *DataFile, err 
 		if err != nil {
 			return nil, err
 		}
+	}
+
+	if rwManager == nil {
+		return nil, ErrRWMode
 	}
 
 	return &DataFile{
